@@ -15,6 +15,11 @@ CLASSES = {
     "plain": dict(capital=False, splits=True, n_sec=(1, 3), fees_p=0.9),
     "capital": dict(capital=True, splits=True, n_sec=(1, 3), fees_p=0.8),
     "capital_dense": dict(capital=True, splits=True, n_sec=(1, 2), steps=(10, 22), templates_p=0.5, fees_p=0.9),
+    # a SPLIT/UNSPLIT may share a date with trades of its security. Whether it applies before or after that day's
+    # trades is not fixed by any property, so an event is only *required* to take effect (or to be ignored) when
+    # both readings agree that shares are (or are not) held at the event date; conservation itself is convention-free.
+    "split_on_trade_date": dict(capital=True, splits=True, strict_splits=False, n_sec=(1, 2), steps=(6, 14), fees_p=0.8,
+                                templates_p=0.3),
     "fx": dict(capital=True, splits=True, n_sec=(1, 3), currencies=CUR, fees_p=0.9,
                start=(pdate("2016-01-01"), pdate("2024-06-01")), last_date=pdate("2026-02-20")),
 }
@@ -64,15 +69,33 @@ def oracle_with(to_gbp):
             optional = []
             nonterm = lc.nonterminating_split([t for t in txs if t["ticker"] == tk])
             for (date, kind, net, _q) in cap_events.get(tk, []):
-                pos = ZERO
+                pos = ZERO      # splits applied after the day's trades
+                pos_b = ZERO    # splits applied before the day's trades
+                ambiguous_day = False
                 for dy in ds:
                     if dy.date >= date:
                         break
                     pos += dy.A - dy.S
+                    if dy.splits and (dy.A or dy.S):
+                        ambiguous_day = True
                     for m in dy.splits:
                         pos *= m
-                # same-date trades are excluded from strict classes
+                        pos_b *= m
+                    pos_b += dy.A - dy.S
                 signed = net if kind == "ACCUMULATION" else -net
+                if ambiguous_day and (pos > 0) != (pos_b > 0):
+                    # The two readings disagree on whether shares are held. The report's own closing holding
+                    # shows which reading the tool follows for this security (when only one of them reproduces
+                    # it); the event is then judged by that same reading - one notion of "held" per report.
+                    conv = holding_convention(ds, rep["holdings"].get(tk, (ZERO, ZERO))[0])
+                    cnt["events_where_split_day_convention_decides"] += 1
+                    if conv is None:
+                        optional.append(signed)
+                        continue
+                    cnt["events_judged_by_the_convention_the_holding_shows"] += 1
+                    pos = pos if conv == "after" else pos_b
+                if ambiguous_day:
+                    cnt["events_after_a_split_on_a_trade_date"] += 1
                 if pos > 0:
                     expected += signed
                     cnt["events_took_effect"] += 1
@@ -86,6 +109,16 @@ def oracle_with(to_gbp):
             admissible = {expected}
             for o_ in optional[:10]:
                 admissible |= {a_ + o_ for a_ in admissible}
+            split_day = any(dy.splits and (dy.A or dy.S) for dy in ds)
+            has_bnb = "BedAndBreakfast" in legs_by_rule[tk]
+            if not any(abs(offsets - a_) <= tolr for a_ in admissible) and split_day and has_bnb:
+                # finding F15: with a split on a trade date the 30-day look-ahead and the day loop disagree about
+                # the split, so the pool and the pre-pass can disagree about what is held
+                v.append({"clause": "event-amount-not-applied-exactly",
+                          "signature": "F15:split-on-trade-date-with-30-day-match:held-shares-disagree-between-passes",
+                          "detail": f"{tk}: capital events should move cost by {float(expected)!r} but the lots carry "
+                                    f"offsets totalling {float(offsets)!r}"})
+                continue
             if not any(abs(offsets - a_) <= tolr for a_ in admissible):
                 v.append({"clause": "event-amount-not-applied-exactly",
                           "detail": f"{tk}: capital events should move cost by {float(expected)!r} "
@@ -109,6 +142,26 @@ def oracle_with(to_gbp):
                     cnt["foreign_amounts"] += 1
         return v
     return oracle
+
+
+def holding_convention(ds, reported):
+    """'after' / 'before' if exactly one reading of split-on-trade-date (split applied after / before that day's
+    trades) reproduces the reported closing holding, else None."""
+    a = b = ZERO
+    for dy in ds:
+        a += dy.A - dy.S
+        for m in dy.splits:
+            a *= m
+            b *= m
+        b += dy.A - dy.S
+    t = TOL_FINE * 10 ** 6
+    ok_a = abs(reported - a) <= t + Fraction(1, 10 ** 15) * abs(a)
+    ok_b = abs(reported - b) <= t + Fraction(1, 10 ** 15) * abs(b)
+    if ok_a and not ok_b:
+        return "after"
+    if ok_b and not ok_a:
+        return "before"
+    return None
 
 
 def sample_fn(txs, o):
